@@ -10,19 +10,19 @@ CHECKS = {
    text="All Raft-legal histories up to the depth bound over a state-relative alphabet (22 symbols) are executed on the real store under 8 chunk configurations; every call result, log_state(), every read range and the chunk list are compared with a plain reference log, and API observations are compared across configurations. Exhaustive within the bound; the bound and every cap are reported.",
    note="eager worker (wait_worker_idle after each op); types fixed to VT; reference model trusted; depth bound", ref="5 C01"),
  "C02": dict(engine="seqx", technique="explicit-state BFS over histories with restart transitions (bounded exhaustive)",
-   text="Same search with Reopen(cfg') as a transition at every position (flush, ack, idle, drop, open under different chunk/cache/read-buffer limits): state, every entry, dump text and file set must be unchanged by the restart, and the search continues from the restarted store so later writes are checked against the model too.",
+   text="Same search with Reopen(cfg') as a transition at every position (flush, ack, idle, drop, open under different chunk/cache/read-buffer limits): state, every entry, dump text and file set must be unchanged by the restart, a standalone Dump of the closed directory must write the same text as the live store's dump, and the search continues from the restarted store so later writes are checked against the model too.",
    note="eager worker; restart configurations are a fixed list of 5; depth bound", ref="5 C02"),
  "C06": dict(engine="seqx", technique="explicit-state BFS with every specification-refused call at every reached state",
-   text="At every state reached by legal histories every member of the refused alphabet (15 symbols generated from the state) is issued; the call must return Err and state, entries, cache statistics, on-disk size and chunk list must be identical before/after; the search continues with legal operations against a model that never saw the call, and every history ends with flush + restart.",
+   text="At every state reached by legal histories every member of the refused alphabet (15+ symbols generated from the state, incl. append batches whose first, second or third entry is refused, also on an empty log) is issued; the call must return Err and state, entries, cache statistics, on-disk size and chunk list must be identical before/after (for a batch with accepted leading entries: identical to the model holding exactly those); the search continues with legal operations against a model that never saw the call, and every history ends with flush + restart.",
    note="eager worker; depth bound; refused alphabet is structured, not all u64 values", ref="5 C06"),
  "C11": dict(engine="seqx", technique="explicit-state BFS; journal dump/bytes vs model-predicted layout; enumerated file-name offsets",
-   text="For every explored history and chunk limits incl. 0 and 1: after flush+idle the dump equals the predicted record list per file (one record per accepted write + head snapshots), file names = global offsets, files abut, file bytes equal an independent hand-written encoder's output, each write's returned Segment is where its record is, rotation happens exactly at the limit, on_disk_size = sum of file sizes. File-name codec round-trips for a structured set of ~500 offsets.",
+   text="For every explored history and chunk limits incl. 0 and 1 and both limits set at once: after flush+idle the dump equals the predicted record list per file (one record per accepted write + head snapshots), file names = global offsets, files abut, file bytes equal an independent hand-written encoder's output, each write's returned Segment is where its record is, rotation happens exactly at the limit, on_disk_size = sum of file sizes. File-name codec round-trips for a structured set of ~500 offsets.",
    note="eager worker; independent encoder enc.rs trusted; offsets by representatives", ref="5 C11"),
  "C15": dict(engine="seqx", technique="explicit-state BFS under 12 cache-limit configurations with the resident-set accessor as oracle",
-   text="After every operation of every explored history (legal + refused calls) stat() counters must equal count/sum of the resident set read through the verif-hooks accessor; after an accepted append any over-limit cache may only hold entries above the boundary in force at the write; after idle + drain no resident entry is at or below the boundary. (Worker-timing dimension: schedx, see C07.)",
+   text="After every operation of every explored history (legal + refused calls) stat() counters must equal count/sum of the resident set read through the verif-hooks accessor; after an accepted append any over-limit cache may only hold entries above the boundary in force at the write; after idle + drain no resident entry is at or below the boundary. Worker-timing dimension: all caller/worker schedules (schedx). Restart dimension: clean and torn images re-opened under small caches; after flush + idle + drain no entry whose record lies in a closed (written, synced) chunk may stay resident.",
    note="eager worker here; 'after a write' is read as 'after an append' (the only write that consults the cache); lazily unevicted entries after other writes are counted in the evidence, not alarmed", ref="5 C15"),
  "C16": dict(engine="seqx", technique="explicit-state BFS + exhaustive argument grid at every state (catch_unwind, overflow checks on)",
-   text="At every state reached by the core alphabet up to the depth bound, every public operation is called with every argument of a boundary grid (indexes around 0/purged/first/last/u64::MAX, all ordered and inverted read ranges, terms around current/0/u64::MAX), each write probe on its own fresh replay; any panic is a violation. Built with overflow-checks and debug-assertions.",
+   text="At every state reached by the core alphabet up to the depth bound, every public operation is called with every argument of a boundary grid (indexes around 0/purged/first/last/u64::MAX, all ordered and inverted read ranges, terms around current/0/u64::MAX), each write probe on its own fresh replay; update_state with every `last` of the grid followed by every operation, flush and restart; RaftLog::open / Dump on unusual directories (missing, a file, stray and chunk-named entries, chunk names high in the offset range); any panic is a violation. Built with overflow-checks and debug-assertions.",
    note="grid by boundary representatives; depth bound", ref="5 C16"),
 }
 
@@ -31,18 +31,18 @@ CHECKS["C12"] = dict(engine="codecx", technique="bounded-exhaustive enumeration 
    note="inputs outside the enumerated spaces by representatives; VT types; overflow checks on", ref="5 C12")
 
 CHECKS["C09"] = dict(engine="imagex", technique="exhaustive single-byte mutation / chunk-removal enumeration of real on-disk images, recovered by the real open()",
-   text="For every seed image (final directory of a real run, chosen for layout diversity) every byte of every chunk file is replaced by each value of the replacement set (quick: 8 bit flips + 00/FF/+1; thorough: all 255) and opened with the real RaftLog::open: Err, or Ok with the written state, never a panic; a refused open must leave every non-newest file byte-identical; every middle chunk removed in turn; under an open store with an empty cache every byte of every live entry's record in a closed chunk is corrupted and read back.",
+   text="For every seed image (final directory of a real run, chosen for layout diversity) every byte of every chunk file is replaced by each value of the replacement set (quick: 8 bit flips + 00/FF/+1; thorough: all 255) and opened with the real RaftLog::open: Err, or Ok with the written state, never a panic; a refused open must leave every non-newest file byte-identical; every middle chunk removed in turn (also combined with an empty/torn newest chunk); recovery is repeated under small read buffers (reads straddling buffer boundaries) for one bit flip per byte; under an open store with an empty cache every byte of every live entry's record in a closed chunk is corrupted and read back.",
    note="seed images from bounded histories; known findings F10a/F10b classified by an independent decoder", ref="5 C09")
 CHECKS["C10"] = dict(engine="imagex", technique="exhaustive cut-position / zero-tail enumeration of real on-disk images, recovered by the real open()",
-   text="For every seed image the newest chunk is cut at every byte position 0..=len and given zero tails from every record boundary with lengths 1..64, 1023-1025, 33 KiB, under both values of truncate_incomplete_record; the recovered state must be the one denoted by exactly the completely present records (reference model replay), the complete prefix must be preserved on disk, writes+flush+another restart must work; with truncation disabled damaged tails must be refused with files untouched.",
+   text="For every seed image the newest chunk is cut at every byte position 0..=len and given zero tails from every record boundary with lengths 1..64, 1023-1025, 33 KiB, 65535-65537, 128 KiB+5, under both values of truncate_incomplete_record, every cut also under small read buffers; the recovered state must be the one denoted by exactly the completely present records (reference model replay), the complete prefix must be preserved on disk, writes+flush+another restart must work; with truncation disabled damaged tails must be refused with files untouched.",
    note="seed images from bounded histories", ref="5 C10")
 CHECKS["C13"] = dict(engine="lockx", technique="exhaustive command-sequence enumeration over 3 contender processes with a reference holder variable",
-   text="Three contender processes (each may also attempt a second in-process instance) are driven through every sequence over {open store, open dump, drop} up to depth 5 (quick) / 7 (thorough) on a directory whose newest chunk has a torn tail (an opener that got past the lock would modify it); an attempt must succeed iff nobody holds the directory, refused attempts must leave every chunk file byte-identical.",
+   text="Three contender processes (each may also attempt a second in-process instance) are driven through every sequence over {open store, open dump, drop} up to depth 5 (quick) / 7 (thorough) on a directory whose newest chunk has a torn tail (an opener that got past the lock would modify it), on one with a zero-length newest chunk (which recovery removes), and on one no store can open (missing middle chunk: a failed open must release the lock); an attempt must succeed iff nobody holds the directory, refused attempts must leave every chunk file byte-identical. Thread level: 2-3 contender threads (incl. writing ones) under the controlled scheduler, every libc call a scheduling point, ownership intervals derived from the flock calls.",
    note="kernel flock trusted; thread-level libc-call interleavings: fine level under the controlled scheduler", ref="5 C13")
 
 SCHED_NOTE = "scheduling points = verif-hooks gates + interposed libc file-system calls (sufficient because the crate has no unsafe and shares only channel, cache lock, done_seq, callbacks and files); sequential consistency; histories bounded in length; crash model as stated in DESIGN 3.5"
 CHECKS["C03"] = dict(engine="schedx", technique="stateless DFS over all caller/worker schedules of the real code (controlled scheduler, sleep sets) x every crash image at every scheduler state, recovered by the real open()",
-   text="For every history up to the length bound every schedule of the real caller thread and the real FlushWorker thread is executed under a controlled scheduler; at every scheduler state every post-crash image of the crash model (process crash incl. a write in flight; power loss cutting each file at/above its synced length or zero-filling from a record boundary) is materialised and opened with the real RaftLog::open; whenever it opens, its state and entries must equal the model after some prefix of the issued writes that includes every write issued before a flush whose callback had reported Ok.",
+   text="For every history up to the length bound every schedule of the real caller thread and the real FlushWorker thread is executed under a controlled scheduler; at every scheduler state every post-crash image of the crash model (process crash incl. a write in flight; power loss cutting each file at/above its synced length or zero-filling from a record boundary) is materialised and opened with the real RaftLog::open; whenever it opens, its state and entries must equal the model after some prefix of the issued writes that includes every write issued before a flush whose callback had reported Ok. Also: crashes during recovery itself (second-level images from a traced recovery) and crashes after one injected I/O fault (EIO / EINTR / short write at any worker write or fdatasync).",
    note=SCHED_NOTE, ref="5 C03")
 CHECKS["C05"] = dict(engine="schedx", technique="same exploration as C03; oracle: recovery returns Ok without panic and the recovered store accepts writes, flush, ack and another restart",
    text="Same schedules, crash points and crash images as C03; every image must open (no Err, no panic), then vote+append+flush must be acknowledged, reads must match and a further restart must succeed. Refusals caused by an unfinished rotation (F5) are a recorded known finding whose class is computed from the image alone; any other refusal or panic is a violation.",
@@ -51,14 +51,14 @@ CHECKS["C04"] = dict(engine="schedx", technique="stateless DFS over all schedule
    text="For every history and schedule, and for every placement of up to the fault bound of injected failures at the worker's write/fdatasync calls, the libc-level trace is checked at every callback: Ok implies every record (and head snapshot) journalled before that flush is written at its predicted place and covered by a later successful sync of that same file; callbacks fire at most once, exactly once without faults, in request order; absorbed deviations (EINTR, short write) must leave behaviour unchanged.",
    note=SCHED_NOTE + "; a later successful fdatasync is taken to cover all bytes written before it", ref="5 C04")
 CHECKS["C07"] = dict(engine="schedx", technique="stateless DFS over all schedules under small cache limits; every read compared with the reference model",
-   text="Histories with reads (range reads, per-index reads and snapshot iteration) at arbitrary points are run under every schedule of caller and worker for cache limits incl. 0 items / 0 bytes; every read must return exactly the model's live entries without error however far the worker has got (buffered, queued, written, synced, evicted, drained).",
-   note=SCHED_NOTE + "; reader-thread concurrency is covered by the reader harness when built", ref="5 C07")
+   text="Histories with reads (range reads, per-index reads and snapshot iteration) at arbitrary points are run under every schedule of caller and worker for cache limits incl. 0 items / 0 bytes; every read must return exactly the model's live entries without error however far the worker has got (buffered, queued, written, synced, evicted, drained). Plus: lock-window mode (reads scheduled while the worker holds the cache write lock); a reader harness (two reader threads + a drainer on a shared store, all interleavings with the worker, incl. entries above 64 KiB); snapshots taken early and iterated late; an eager-worker explicit-state phase over the full legal alphabet (batches, 40 000-byte entries) under small caches.",
+   note=SCHED_NOTE + "; 2 reader threads", ref="5 C07")
 CHECKS["C08"] = dict(engine="schedx", technique="stateless DFS over all schedules x fault injection x crash images; trace oracle at every unlink",
    text="At every unlink in every explored execution: the file stores no live entry (model), it is the oldest chunk file, and the durable remainder (each remaining file cut to its synced length, decoded independently) already contains the purge that made it obsolete, also when syncs fail; crash images around the unlinks satisfy the C03 oracle; after an effective purge + flush + idle every obsolete closed chunk is gone.",
    note=SCHED_NOTE, ref="5 C08")
 
 CHECKS["C14"] = dict(engine="schedx", technique="stateless DFS over all schedules of two store instances on one directory (old instance's worker vs new instance's open, operations and worker)",
-   text="For every first-instance history of the shape prefix; F; W*; [A...]; drop (rotation every 1-2 writes, so chunk tails and removals may be pending at drop), followed by open; purge; flush; wait; idle; read; append; flush; wait; drop on a second instance, every interleaving of the first worker's remaining steps with the second instance is explored: after drop returned no traced call of the old worker may change the directory; open must succeed and show a prefix of the writes that includes everything acknowledged; the new instance's flushes must be acknowledged Ok and its worker must stay alive.",
+   text="For every first-instance history of the shape prefix; F; W*; [A...]; drop (rotation every 1-2 writes, so chunk tails and removals may be pending at drop), followed by open; purge; flush; wait; idle; read; append; flush; wait; drop on a second instance, every interleaving of the first worker's remaining steps with the second instance is explored: after drop returned no traced call of the old worker may change the directory; open must succeed and show a prefix of the writes that includes everything acknowledged; the new instance's flushes must be acknowledged Ok and its worker must stay alive. Variants: the first instance dropped by unwinding from a panic; a join that gives up (virtual clock); one EIO at any write/fdatasync/unlink of the first worker (drop must still return — a hang is a verdict — and the old worker must have quit by then).",
    note=SCHED_NOTE + "; second process replaced by a second instance in the same process (flock conflicts between file descriptions, so lock behaviour is the same)", ref="5 C14")
 
 NOT_YET = {
